@@ -219,6 +219,8 @@ def _run_shard(modname, lane_name, tier, seed, shard, n_examples, known_keys):
     stats = Stats()
     seen = set(known_keys)
     failures = []
+    stop_dir = os.environ.get('VLIB_STOP_DIR')
+    stop_flag = os.path.join(stop_dir, 'stop-' + lane_name) if stop_dir else None
     remaining = n_examples
     rnd = 0
     while remaining > 0 and len(failures) < MAX_BUCKETS:
@@ -232,7 +234,16 @@ def _run_shard(modname, lane_name, tier, seed, shard, n_examples, known_keys):
         def test(case):
             if state['fail'] is not None:
                 raise _Fail()
+            if stop_flag and os.path.exists(stop_flag):
+                state['stopped'] = True
+                raise _Fail()
             v = lane.check(case)
+            if v.status == 'fail' and stop_flag and (v.key.startswith('hang:') or v.key.startswith('memory:')):
+                # every further such case costs the full time limit: the other shards of this lane stop too
+                try:
+                    open(stop_flag, 'w').close()
+                except OSError:
+                    pass
             state['count'] += 1
             stats.add(case, v, shard == 0)
             if v.status == 'fail':
@@ -248,7 +259,7 @@ def _run_shard(modname, lane_name, tier, seed, shard, n_examples, known_keys):
             pass
         remaining -= max(1, state['count'])
         rnd += 1
-        if state['fail'] is None:
+        if state['fail'] is None or state.get('stopped'):
             break
         case, v = state['fail']
         evals = 0
@@ -439,12 +450,20 @@ def main(argv=None):
             tasks.append((mod.__name__, lane.name, a.tier, seed, s, per, tuple(known_keys)))
     results = []
     if tasks:
-        if a.workers <= 1:
-            results = [run_shard(t) for t in tasks]
-        else:
-            ctx = multiprocessing.get_context('fork')
-            with ctx.Pool(min(a.workers, len(tasks))) as pool:
-                results = pool.map(run_shard, tasks, chunksize=1)
+        import shutil
+        import tempfile
+        os.makedirs(os.path.join(ROOT, '.work'), exist_ok=True)
+        stop_dir = tempfile.mkdtemp(prefix='stop-', dir=os.path.join(ROOT, '.work'))
+        os.environ['VLIB_STOP_DIR'] = stop_dir
+        try:
+            if a.workers <= 1:
+                results = [run_shard(t) for t in tasks]
+            else:
+                ctx = multiprocessing.get_context('fork')
+                with ctx.Pool(min(a.workers, len(tasks))) as pool:
+                    results = pool.map(run_shard, tasks, chunksize=1)
+        finally:
+            shutil.rmtree(stop_dir, ignore_errors=True)
 
     per_lane = {}
     total = Stats()
